@@ -193,6 +193,11 @@ pub fn txt_menu() -> Vec<(Vec<u8>, String)> {
     let mut v = vec![plain("hi"), plain("a b  c"), plain("semi;colon(paren)"), plain("x")];
     v.push((vec![65, 0, 255, 34, 92], "\\065\\000\\255\\034\\092".to_string()));
     v.push((vec![b'a', 200, b'z'], "a\\200z".to_string()));
+    // a decimal escape directly followed by literal digits, and directly by another escape
+    v.push((vec![65, b'1'], "\\0651".to_string()));
+    v.push((vec![1, b'1', b'2', b'3'], "\\001123".to_string()));
+    v.push((vec![255, b'2', b'5', b'5'], "\\255255".to_string()));
+    v.push((vec![b'9', 48, b'9', 0, b'0'], "9\\0489\\0000".to_string()));
     for n in [254usize, 255, 256, 510, 511, 3825] {
         let s = label_of(n, 't');
         v.push((s.as_bytes().to_vec(), s));
